@@ -8,8 +8,8 @@ namespace Astits.C04
 
 /-- `writePacket` either rejects the packet having emitted nothing (the model's error carries no bytes), or
 emits exactly `target` bytes — provided the bytes of header and adaptation field are as many as the size
-computed beforehand (true for every adaptation field whose TransportPrivateDataLength is consistent: see
-`head_size_consistent`) -/
+computed beforehand (since the writer takes the private-data length byte from the data, true for EVERY adaptation
+field: see `afBytes_length_any`; `writePacket_length` below needs no such hypothesis) -/
 theorem writePacket_ok_length (p : Packet) (target : Nat) (bs : Bytes)
     (hc : (([syncByte] ++ hdrBytes p.header ++ (if p.header.hasAdaptationField then afBytes (p.adaptationField.getD default) else [])).length : Int)
             = packetHeadSize p)
@@ -54,35 +54,18 @@ theorem afExtBytes_length (e : PacketAdaptationExtensionField) : (afExtBytes e).
   cases e.hasLegalTimeWindow <;> cases e.hasPiecewiseRate <;> cases e.hasSeamlessSplice <;>
     simp [packFields, fieldsWidth, beBytes, ptsBytes_length, ptsOrDTSByteLength]
 
-/-- **declared = written**: for an adaptation field whose TransportPrivateDataLength matches its private data and
-whose StuffingLength is not negative, the bytes written after the length byte are exactly `afSize` — the
-value of adaptation_field_length -/
+/-- **declared = written, for ANY adaptation field** (not the one-byte form): the bytes written after the length byte
+are exactly `afSize` — the value of adaptation_field_length.  Nothing is assumed about TransportPrivateDataLength (the
+writer derives the length byte from `len(TransportPrivateData)`) nor about StuffingLength (negative = 0 bytes). -/
+theorem afBytes_length_any (a : PacketAdaptationField) (h1 : a.isOneByteStuffing = false) :
+    ((afBytes a).length : Int) = 1 + afSize a := MuxWhole.afBytes_length a h1
+
+/-- **declared = written** (earlier statement, kept: its two hypotheses — TransportPrivateDataLength matches the private
+data, StuffingLength not negative — are no longer needed, see `afBytes_length_any`) -/
 theorem afBytes_length (a : PacketAdaptationField) (h1 : a.isOneByteStuffing = false)
-    (hp : a.hasTransportPrivateData = true → a.transportPrivateDataLength = a.transportPrivateData.length)
-    (hs : 0 ≤ a.stuffingLength) :
-    ((afBytes a).length : Int) = 1 + afSize a := by
-  unfold afBytes afSize
-  simp only [h1, Bool.false_eq_true, if_false, List.length_append, List.length_cons, List.length_nil, List.length_replicate]
-  have hf : (packFields [(b2n a.discontinuityIndicator, 1), (b2n a.randomAccessIndicator, 1),
-        (b2n a.elementaryStreamPriorityIndicator, 1), (b2n a.hasPCR, 1), (b2n a.hasOPCR, 1),
-        (b2n a.hasSplicingCountdown, 1), (b2n a.hasTransportPrivateData, 1), (b2n a.hasAdaptationExtensionField, 1)]).length = 1 := by
-    simp [packFields, fieldsWidth, beBytes]
-  rw [hf]
-  have hst : ((a.stuffingLength.toNat : Nat) : Int) = a.stuffingLength := Int.toNat_of_nonneg hs
-  have hsl : (if 0 < a.stuffingLength then a.stuffingLength else 0) = a.stuffingLength := by
-    split <;> omega
-  have hpriv : a.hasTransportPrivateData = true →
-      ((if 0 < a.transportPrivateDataLength then a.transportPrivateData else []).length : Int) = a.transportPrivateData.length := by
-    intro hh
-    have := hp hh
-    by_cases hz : 0 < a.transportPrivateDataLength
-    · simp [hz]
-    · have : a.transportPrivateData.length = 0 := by omega
-      simp [hz, this]
-  cases hpcr : a.hasPCR <;> cases hopcr : a.hasOPCR <;> cases hsc : a.hasSplicingCountdown <;>
-    cases hpd : a.hasTransportPrivateData <;> cases hext : a.hasAdaptationExtensionField <;>
-    simp [pcrBytes_length, afExtBytes_length, hst, hsl] <;>
-    (try have := hpriv hpd) <;> omega
+    (_hp : a.hasTransportPrivateData = true → a.transportPrivateDataLength = a.transportPrivateData.length)
+    (_hs : 0 ≤ a.stuffingLength) :
+    ((afBytes a).length : Int) = 1 + afSize a := afBytes_length_any a h1
 
 /-- a rejected call leaves the abstract output untouched: every error result of the specification carries no packets
 unless they are whole table packets written before the failing PES -/
@@ -102,8 +85,9 @@ open MuxWhole (Whole AllWhole OutOK Call call hist written counted returned)
 
 /-- `writePacket` at full strength (compare `writePacket_ok_length`, which needs the hypothesis `hc`): ANY packet a
 caller can build — inconsistent TransportPrivateDataLength, negative StuffingLength, oversize fields — is either
-rejected / panics having emitted nothing, or comes out as exactly `target` bytes.  (The adaptation field never
-occupies more bytes than `calcPacketAdaptationFieldSize` reserves; if it occupies fewer, 0xff padding fills up.) -/
+rejected / panics having emitted nothing, or comes out as exactly `target` bytes.  (The adaptation field occupies
+exactly the bytes `calcPacketAdaptationFieldSize` reserves, `afBytes_length_any`; 0xff padding fills up after a short
+payload.) -/
 theorem writePacket_length (p : Packet) (target : Nat) (bs : Bytes) (h : writePacket p target = .ok bs) :
     bs.length = target := MuxWhole.writePacket_length p target bs h
 
